@@ -25,7 +25,7 @@ Optional (C20 engine rows / C21 in the mirror):
 → every out gets "kwrows":[[node,[len|-1…]]…] = rows of the kw tokens computed by the Lean regex engine on `lit\b`
    (`reRx cc (Kwd.kwRe ic lit)`), and with "off" the answer gets
    "akw":{"model":b  (`Lang.autokwd` of the off-model = the model under test, rule names aside),"uniform":b,
-          "nogl":[b…] (`NoGluedKeywordIn` per input),"same":[b…] (run of the off-model = run of the model under test)}
+          "nogl":[b…] (`NoGluedKeywordIn` per input),"same":[b…] (run of the off-model = run of the model under test; computed for inputs[0] when its hypotheses hold, else true)}
 Undecodable requests → {"err":"bad-op"}.
 -/
 open Lean Wire Peg Peg.Case
@@ -267,10 +267,14 @@ def handle1 (j : Json) : Json :=
             | .noMatch p => s!"nomatch {p}"
             | .fuel => "fuel"
             | .bad => "bad"
+          let uni := uniformIc cfgIc Lo.toks
           let nogl := inps.toList.map fun inp => noGluedKeywordInB cc cfgIc Lo.toks inp.text
-          let same := inps.toList.map fun inp =>
-            outJ (Lo.run lower (rxFor inp) inp.text fuel) == outJ (L.run lower (rxFor inp) inp.text fuel)
-          [("akw", Json.mkObj [("model", model), ("uniform", uniformIc cfgIc Lo.toks), ("nogl", toJson nogl),
+          -- the instance of `C21_same_run` is only claimed where its hypotheses hold, and (being a theorem) only
+          -- computed for the original text of the group; the real parses are compared for every text by the harness
+          let same := ((inps.toList.zip nogl).zipIdx).map fun ((inp, ng), k) =>
+            !(uni && ng && k == 0) ||
+              outJ (Lo.run lower (rxFor inp) inp.text fuel) == outJ (L.run lower (rxFor inp) inp.text fuel)
+          [("akw", Json.mkObj [("model", model), ("uniform", uni), ("nogl", toJson nogl),
                                ("same", toJson same)])]
       pure <| Json.mkObj ([("outs", Json.arr outs), ("hyp", hyp)] ++ akw ++ compiled)
     r.getD badOp
